@@ -291,6 +291,8 @@ class OrderInterp(Interp):
         if tgt is not None:
             return tgt
         ext = self.prog.external_name(mod, ident)
+        if ext == "typing.cast":
+            return ("builtin", "cast")
         if ext.endswith(".Power") or ident == "Power":
             return Obj("class:Power")
         if ident == "_logger":
@@ -335,6 +337,8 @@ class OrderInterp(Interp):
                 return self.globals.setdefault("__ZERO__", Atom("ZERO"))
             if fn[1] == "log":
                 return None
+            if fn[1] == "cast":
+                return pos[1]  # typing.cast is the identity at run time
             if fn[1] == "isclose":
                 other = pos[0]
                 # Quantity.isclose(other, rel_tol=1e-9, abs_tol=0.0): against zero this is equality
@@ -381,6 +385,15 @@ class OrderInterp(Interp):
             if isinstance(base, ClassInfo) or base.cls.startswith(("ext:", "class:")):
                 return base
         return super().get_item(base, key, node)
+
+    def contains(self, container: Any, item: Any, node: ast.AST) -> bool:
+        if isinstance(container, Obj):
+            for cls in self.prog.all_classes():
+                if cls.name == container.cls:
+                    m = self.prog.resolve_method(cls, "__contains__")
+                    if m is not None:
+                        return bool(self.call_func(m, [container, item], {}))
+        return super().contains(container, item, node)
 
     def key(self, k: Any) -> Any:
         if isinstance(k, (Atom, Obj)):
